@@ -318,6 +318,8 @@ def View.checkSum (v : View) : Nat :=
   let n := v.b.size / 4
   let pos := (eLfanew v.b + 24 + 64) / 4
   let c := csumLoop v.b pos n n 0
+  -- the remaining 1..3 bytes, zero extended (`byteAt` reads 0 beyond the buffer)
+  let c := if v.b.size % 4 ≠ 0 then csumStep c (le32 v.b (4 * n)) else c
   let c := c % 65536 + c / 65536
   let c := c + c / 65536
   let c := c % 65536
